@@ -10,7 +10,7 @@ boundaries in text (`interpolate`).
 
 Correspondence: the Lean `xform` (Genshi.Py.xform) against the real transformers on the same
 trees (wire form of the resulting `ast`), and the Lean model of `interpolation.lex` against the real one."""
-import ast, builtins, copy, json, operator, warnings
+import ast, builtins, copy, json, operator, re, warnings
 from harness import proto, gen_pyexpr as G
 from harness.framework import Result, pmap
 from harness.proto import Atom
@@ -141,7 +141,8 @@ def canon(v, depth=0):
     if isinstance(v, Undefined):
         return ['Undefined', v._name]
     if v is None or v is Ellipsis or v is NotImplemented or isinstance(v, (bool, int, float, complex, str, bytes, slice, range)):
-        return [type(v).__name__, repr(v)]
+        # (object addresses inside a str(), e.g. '<function <lambda> at 0x7f..>', are not part of the value)
+        return [type(v).__name__, re.sub(r' at 0x[0-9a-fA-F]+', ' at 0x?', repr(v))]
     if isinstance(v, (list, tuple)):
         return [type(v).__name__, [canon(x, depth + 1) for x in v]]
     if isinstance(v, dict):
